@@ -624,6 +624,27 @@ func RunC02(t *testing.T, spec kernel.Spec) *kernel.Outcome {
 						o.Probe("tampered-rejected")
 					}
 				}
+				// second part of the history: the provider withdraws every key (its key set document is now an empty list,
+				// answered with 200). A token of an unknown key makes the long-lived verifiers look at the document; after
+				// that nothing signed by a withdrawn key is believed any more.
+				w.Store.Unpublished = true
+				_, p2, _ := splitJWT(s2.tokens.IDToken)
+				stranger := world.FixtureKey(w.AlgPrefix, w.KeyN+3)
+				unknown := signWith(dec(p2), next.Alg, stranger.Key, "sig-unheard-of", nil)
+				for i := range surfaces[:3] {
+					if accepted, sub, _ := surfaces[i].deliver(unknown); accepted {
+						c.viol("forged-accepted", surfaces[i].surface+"/unknown-key-while-no-key-is-published", "%s signed with a key that was never published was believed; subject %q", surfaces[i].surface, sub)
+					}
+				}
+				for i, tok := range []string{s2.tokens.IDToken, s2.tokens.AccessToken, s2.tokens.IDToken} {
+					o.Fault("withdrawn")
+					if accepted, sub, _ := surfaces[i].deliver(tok); accepted {
+						c.viol("forged-accepted", surfaces[i].surface+"/signed-by-withdrawn-key-after-empty-key-set", "%s signed with key %s was believed although the provider has withdrawn every key and the verifier has fetched the empty key set since; subject %q", surfaces[i].surface, next.KID, sub)
+					} else {
+						o.Probe("withdrawn-key-rejected")
+					}
+				}
+				w.Store.Unpublished = false
 			}
 		}
 		o.Log = append([]string{fmt.Sprintf("config: router=%s alg=%s shape=%s", w.Router, w.SigAlg, c.shape)}, o.Log...)
